@@ -275,6 +275,7 @@ def C(name: str) -> A.Const:
     return A.Const(name)
 
 
+MENU_SWITCH_OPS = ("message_SwitchMenu", "message_SwitchMenu2")
 MACROS = (
     A.Macro("mA", ("$p",), (A.Op("mopA", (C("$p"),)), A.Op("mopB", (I(7), C("$p"))))),
     A.Macro(
@@ -292,7 +293,7 @@ MACRO_BY_NAME = {m.name: m for m in MACROS}
 class Renderer:
     """skeleton -> esast statements; concrete forms round-robin from the pools, all numbers running."""
 
-    POOLS = ("opargs", "p1", "assign", "p2", "msg", "marg", "T", "cond", "swh", "caseh", "para")
+    POOLS = ("opargs", "p1", "assign", "p2", "msg", "marg", "T", "cond", "swh", "caseh", "para", "casem", "casex")
 
     def __init__(self, start: int = 0, avoid_scn_caseop: bool = True, macros: bool = True, phase: int = 0):
         """phase: where the round-robin of every pool starts (families pass the program index, so that over a family
@@ -416,7 +417,7 @@ class Renderer:
         )[j]()
 
     def switch_header(self) -> Any:
-        size = 6 if self.avoid_scn_caseop else 7
+        size = 7 if self.avoid_scn_caseop else 8
         j = self.turn("swh", size)
         n = self.num()
         return (
@@ -426,20 +427,28 @@ class Renderer:
             lambda: A.SwDungeonMode(C(f"DUNGEON_{n}")),
             lambda: A.SwSector(),
             lambda: A.SwOperation(A.Op("message_Menu", (I(n),))),
+            lambda: A.SwOperation(A.Op(MENU_SWITCH_OPS[n % 2], (I(n), I(n % 5)))),
             lambda: A.SwScn(C(f"$S{n}"), 0),
         )[j]()
 
-    def case_header(self) -> Any:
-        j = self.turn("caseh", 7)
+    def case_header(self, menu_switch: bool = False) -> Any:
+        """menu case headers mostly under the menu switches (message_SwitchMenu*), regular ones under the others; one
+        header in nine is of the other kind (the language allows every combination)"""
+        cross = self.turn("casex", 9) == 8
         n = self.num()
+        if menu_switch != cross:
+            j = self.turn("casem", 3)
+            return (
+                lambda: A.CaseMenu(A.Str(f"menu {n}")),
+                lambda: A.CaseMenu2(I(n)),
+                lambda: A.CaseMenu(A.LangStr((("english", f"menu {n}"),))),
+            )[j]()
+        j = self.turn("caseh", 4)
         return (
             lambda: A.CaseVal(I(n)),
             lambda: A.CaseOp((">", "<", "==", "!=", "FALSE")[n % 5], I(n), False),
             lambda: A.CaseVal(C(f"CV_{n}")),
             lambda: A.CaseOp(("<=", ">=", "&")[n % 3], C(f"$CW{n}"), True),
-            lambda: A.CaseMenu(A.Str(f"menu {n}")),
-            lambda: A.CaseMenu2(I(n)),
-            lambda: A.CaseMenu(A.LangStr((("english", f"menu {n}"),))),
         )[j]()
 
     # ---- skeleton -> statements
@@ -469,8 +478,9 @@ class Renderer:
             return A.If(branches, self.block(s[2]) if s[2] is not None else None)
         if kind == "switch":
             header = self.switch_header()
+            menu = isinstance(header, A.SwOperation) and header.op.name in MENU_SWITCH_OPS
             cases = tuple(
-                A.Case(None if is_default else self.case_header(), self.block(body)) for is_default, body in s[1]
+                A.Case(None if is_default else self.case_header(menu), self.block(body)) for is_default, body in s[1]
             )
             return A.Switch(header, cases)
         if kind == "forever":
@@ -768,7 +778,7 @@ def random_program(rng: random.Random, max_size: int = 40) -> A.Program:
     budget = [rng.randint(3, max_size)]
     labels: list = []
     rnd = Renderer(start=rng.randint(0, 50))
-    rnd.k = {p: rng.randint(0, 20) for p in ("opargs", "p1", "assign", "p2", "msg", "marg", "T", "cond", "swh", "caseh")}
+    rnd.k = {p: rng.randint(0, 20) for p in Renderer.POOLS}
 
     def block(d: int, in_loop: bool, in_case: bool, maxlen: int = 5) -> tuple:
         out = []
@@ -955,7 +965,9 @@ def flat_space(tier: str) -> list:
     fams.append(Family("flat-pair", Prod(lambda x, y: (x, y) + _T, pair, pair), single))
     if t["triple"]:
         tr = FlatSkeletons(**t["triple"]).block_item()
-        fams.append(Family("flat-triple", Prod(lambda x, y, z: (x, y, z) + _T, tr, tr, tr), single))
+        triple = Prod(lambda x, y, z: (x, y, z) + _T, tr, tr, tr)
+        # every 3rd triple (fixed stride): the full product does not fit the time budget under load
+        fams.append(Family("flat-triple-sample", Prod(lambda i: triple[3 * i + 1], Lit(*range(len(triple) // 3))), single))
     # plain-only routines
     plain = FlatSkeletons(1, 1, 1, 1).plain
     fams.append(Family("flat-plain", Alt([Lit(_T), Prod(lambda x: (x,) + _T, plain), Prod(lambda x, y: (x, y) + _T, plain, plain)]), single))
@@ -966,7 +978,11 @@ def flat_space(tier: str) -> list:
             list(bodies), header_variant=(i % 7) * 2, coro=(i % 4 == 3), rnd=Renderer(macros=False, avoid_scn_caseop=False, phase=i)
         )
 
-    fams.append(Family("flat-routines", Prod(lambda x, y: ((x,) + _T, (y,) + _T), rt, rt), multi))
+    routines2 = Prod(lambda x, y: ((x,) + _T, (y,) + _T), rt, rt)
+    if tier == "quick":
+        fams.append(Family("flat-routines-sample", Prod(lambda i: routines2[2 * i], Lit(*range(len(routines2) // 2))), multi))
+    else:
+        fams.append(Family("flat-routines", routines2, multi))
     return fams
 
 
